@@ -23,9 +23,11 @@ def episodes(prop, tier, seed):
     eps = gen_rsbig.episodes(seed + off, 29 if q else 90, big=not q)
     if q:   # quick: rank structures under C01, selection structures under C02
         eps = [e for e in eps if ("/" not in e["key"]) == (prop == "C01")]
-    out = {"big": (eps, "verif", 6)}
+    # (executor processes in parallel: every one holds a vector of 0.5 .. 1 GiB and its structures, up to several GiB
+    # for the dense ones of the thorough tier)
+    out = {"big": (eps, "verif", 6 if q else 3)}
     if not q:
-        out["big-release"] = (gen_rsbig.episodes(seed + off + 1, 60, big=True), "release", 6)
+        out["big-release"] = (gen_rsbig.episodes(seed + off + 1, 60, big=True), "release", 3)
     return out
 
 
